@@ -58,6 +58,12 @@ func (mp MerkleProof) Validate(height int64, root HashRange, leaf Proof, numOfLe
 	if root.Range.Lower != 0 {
 		return
 	}
+	// the target index must address a leaf of a tree with numOfLevels levels: before the codec
+	// upgrade the index is not part of the parent hash, so any index with the same left/right
+	// path (e.g. index + 2^numOfLevels, or a negative one) would verify as well
+	if mp.TargetIndex < 0 || (numOfLevels < 63 && mp.TargetIndex >= int64(1)<<uint(numOfLevels)) {
+		return
+	}
 	// check to see that target merkleHash is leaf merkleHash
 	if !bytes.Equal(mp.Target.Hash, merkleHash(leaf.Bytes())) {
 		return
